@@ -1,5 +1,6 @@
 import GB.C10.Proofs
 import GB.C10.StatusJson
+import GB.C10.CreateStatus
 import GB.C10.OptionsProofs
 import GB.C10.FwdRules
 import GB.C10.StreamWitness
@@ -676,6 +677,58 @@ theorem C10_m5_drops_json :
     registryOf (plumbM5 [.withMarshalers (some [jsonM]), .withDefault (some jsonM)]) =
       effectiveRegistry [.withMarshalers (some [jsonM]), .withDefault (some jsonM)] := by
   decide
+
+/-! ### failures while the outgoing stream is created (real adapter; C16's model of `Stream`) -/
+
+/-- **Stream-creation failures.** Whatever the connection does while `AdaptedClientConn.Stream` runs (C16's model
+    `Conn.streamOpen`: Ready at some time, Connecting for ever, refusing) and whatever the caller's context is: if
+    `Stream` fails, with the gRPC code `c` the adapter model yields, then `ServeHTTP` renders origin `streamCreate`,
+    bound, with HTTP status = the canonical status of `c` and a Status whose code is `c` (via `C10_failure`); and the
+    cells of the origin table are: a deadline that expires while the channel is still CONNECTING ⇒ DeadlineExceeded ⇒
+    **504** (never 503), a refusing target ⇒ Unavailable ⇒ 503, also when the deadline expires before a slow
+    connection got Ready ⇒ 504. -/
+theorem C10_stream_creation_status (now : Nat) (c : GB.C16.Conn.Ctx) (a : GB.C16.Conn.Avail) (code : Nat) (msg : Bytes)
+    (h : createCode (GB.C16.Conn.streamOpen now c a) = some code) :
+    (errorStatus (createErr code msg)).2 = canonicalHttp code ∧
+    (convert (createErr code msg)).code = code ∧ explicitOf (createErr code msg) = none ∧
+    (code = cUnavailable ∨ code = cDeadlineExceeded) ∧
+    (∀ d, a = .connecting → c.deadline = some d → code = cDeadlineExceeded ∧ (errorStatus (createErr code msg)).2 = 504) ∧
+    (∀ d, a = .refusing → c.deadline = some d → code = cUnavailable ∧ (errorStatus (createErr code msg)).2 = 503) := by
+  have hst : (errorStatus (createErr code msg)).2 = canonicalHttp code := by rw [errorStatus_http]; rfl
+  have hcases : code = cUnavailable ∨ code = cDeadlineExceeded := by
+    cases hr : GB.C16.Conn.streamOpen now c a <;> simp [hr, createCode] at h <;> simp [← h]
+  refine ⟨hst, rfl, rfl, hcases, ?_, ?_⟩
+  · intro d ha hd
+    subst ha
+    have : GB.C16.Conn.streamOpen now c .connecting = .deadlineExceeded d := by
+      simp [GB.C16.Conn.streamOpen, GB.C16.Conn.waitReturn, GB.C16.Conn.halved, hd]
+    rw [this] at h
+    simp [createCode] at h
+    subst h
+    exact ⟨rfl, by rw [hst]; rfl⟩
+  · intro d ha hd
+    subst ha
+    have : GB.C16.Conn.streamOpen now c .refusing = .unavailable (now + (d - now) / 2) := by
+      simp [GB.C16.Conn.streamOpen, GB.C16.Conn.waitReturn, GB.C16.Conn.halved, hd]
+    rw [this] at h
+    simp [createCode] at h
+    subst h
+    exact ⟨rfl, by rw [hst]; rfl⟩
+
+/-- …and this is what `serve` renders for it: a failure of origin `streamCreate` with exactly that error, after a
+    successful bind and request decoding, nothing written before. -/
+theorem C10_stream_creation_rendered (sc : Scenario) (env : Env) (t : RespTranscoder) (sse : Bool)
+    (hi : sc.inj = .create) (hb : sc.bodyEmpty = true) :
+    serveForward sc env t sse = failResp .streamCreate sc.gone (some t) sc.err [] := by
+  unfold serveForward
+  simp [hi, hb]
+
+/-- What is wrong with C10-m7 (the adapter reports every failed `NewStream` as Unavailable): the deadline cell of the
+    table becomes 503 instead of 504 — kernel-checked on the hanging-dial outcome of the C16 model. -/
+theorem C10_m7_deadline_cell :
+    createCode (GB.C16.Conn.streamOpen 0 ⟨some 4, true⟩ .connecting) = some cDeadlineExceeded ∧
+    (errorStatus (createErr cDeadlineExceeded [])).2 = 504 ∧
+    (errorStatus (createErr cUnavailable [])).2 = 503 := by decide
 
 /-! ### a unary target that answers first and fails afterwards -/
 
